@@ -1,4 +1,4 @@
-\* YAML modules: one control gene with every module activation type, 1-2 inputs, 1-2 outputs, enabled or not, over 4 nodes
+\* YAML modules: one control gene with every module activation type, 1-2 inputs, 1-2 outputs, enabled or not, over 3 nodes (input, output, hidden)
 SPECIFICATION Spec
 CONSTANTS
   PopStartNewline = TRUE
@@ -7,8 +7,8 @@ CONSTANTS
   MaxTraits = 1
   Pats = {1}
   BiasCounts = {0}
-  MinInputs = 2
-  MaxInputs = 2
+  MinInputs = 1
+  MaxInputs = 1
   MaxOutputs = 1
   MinHidden = 1
   MaxHidden = 1
